@@ -112,6 +112,29 @@ func HypergExact(n, k, draws int) (*DiscTable, error) {
 	}
 	den := new(big.Int).Binomial(int64(n), int64(draws))
 	var num []*big.Int
+	if n > 200 {
+		// large populations: one pair of binomials at the bottom of the
+		// support, then the exact integer recurrence
+		//   c(j+1) = c(j)*(k-j)*(draws-j) / ((j+1)*(n-k-draws+j+1))
+		// (every quotient is exact; tableFromCounts re-checks that the counts
+		// sum to C(n,draws), which no wrong step survives)
+		a := new(big.Int).Binomial(int64(k), int64(lo))
+		b := new(big.Int).Binomial(int64(n-k), int64(draws-lo))
+		c := a.Mul(a, b)
+		num = append(num, c)
+		for j := lo; j < hi; j++ {
+			nx := new(big.Int).Mul(c, big.NewInt(int64(k-j)*int64(draws-j)))
+			q := big.NewInt(int64(j+1) * int64(n-k-draws+j+1))
+			r := new(big.Int)
+			nx.QuoRem(nx, q, r)
+			if r.Sign() != 0 {
+				return nil, fmt.Errorf("HypergExact: inexact recurrence step at j=%d", j)
+			}
+			num = append(num, nx)
+			c = nx
+		}
+		return tableFromCounts(lo, num, den)
+	}
 	for j := lo; j <= hi; j++ {
 		a := new(big.Int).Binomial(int64(k), int64(j))
 		b := new(big.Int).Binomial(int64(n-k), int64(draws-j))
